@@ -97,3 +97,28 @@ add("C18", "fault_enumeration", "property-based testing with hostile-input enume
     "landing x position x tar format) is enumerated on every run.",
     "The kernel-like path-resolution model in vf/fault/c18_vfs.py is trusted to classify inputs; device members and "
     "manifest keys conf/input/stages/output are outside the domain.", "DESIGN.md section 3, C18")
+
+add("C13", "exploration", "property-based testing (Hypothesis): generated histories (output times, notification time, "
+    "external kill, task durations/outcomes, engine options) replayed by a discrete-event simulation of the real "
+    "RepeatingEngine + real monitor.CreateMonitor on a virtual clock; history invariants as oracle",
+    "The real RepeatingEngine.run / EngineTaskController / notify_all_producers_finished / kill and the real "
+    "monitor.CreateMonitor loop execute inline on a virtual clock; generated histories place the producers-finished "
+    "notification before start, during sleeps and inside tasks, with failing/raising/long tasks, retries 0/1/3, "
+    "kill-after delays and both producer kinds. Checked: no execution before consumable output exists, an execution that "
+    "started after the last output exists before the engine stops (unless cancelled or never able to consume), it stops "
+    "after the first successful post-notification execution or within retries+4 kernel invocations / before the "
+    "horizon, and ends dead with exit reason Success or ResourceExhausted.",
+    "Duck-typed model job (producer output answers come from generated times using the rule of "
+    "Job.producersHaveOutputSinceDate); inline monitor thread, FIFO delivery of rx emissions; liveness as a virtual-time "
+    "horizon.", "DESIGN.md section 3, C13")
+add("C19", "exploration", "property-based testing (Hypothesis): generated legacy-expressible workflows; round-trip "
+    "Dosini.dump -> Dosini.load_from_directory compared on resolved configurations; deterministic sweep over the whole "
+    "option mapping table",
+    "Instance descriptions of generated workflows (every option key the legacy format can express, stage/global "
+    "variables, blueprints, environments, replication, status/output sections, values with spaces % : = # ; quotes) are "
+    "written with Dosini.dump in four modes (full/sparse instance, package dump, hand-written legacy package -> instance) "
+    "and loaded back; per component the resolved configuration, references and variables, plus environments, status and "
+    "output sections must be equal. A deterministic sweep touches each of the 49 keys of the mapping table in every mode on "
+    "every run.", "Domain restricted to what both the writer and the parser define (single-line ASCII values, numeric "
+    "options are numbers or one whole %(var)s reference); errors the loader only collects are not violations.",
+    "DESIGN.md section 3, C19")
